@@ -568,6 +568,10 @@ func (g *gen) step(prop string) []CStep {
 		if g.cfg.RuleOps && r.Chance(0.06) {
 			return []CStep{CStep{Op: "ruleop", A: r.Intn(4), N: r.Intn(2), Act: []string{"update", "update", "update", "register", "logout"}[r.Intn(5)], V: []string{"approve", "reject"}[r.Intn(2)]}}
 		}
+		if r.Chance(0.025) {
+			// an appchain is logged out (its rules go with it) while requests to and from its services are in flight
+			return []CStep{CStep{Op: "chainlogout", A: r.Intn(4)}}
+		}
 		switch r.Weighted(w) {
 		case 0:
 			return []CStep{g.proofIBTP()}
